@@ -216,6 +216,58 @@ def gen_round3(rng, n, param_values):
     return ops
 
 
+# ---------------------------------------------------------------------------- round 5: life-cycle states
+# The property quantifies over every response the daemon writes, hence over every state the
+# daemon and the presented credential can be in when the request arrives, not only the steady one.
+DAEMON_STATES = ["ready", "sealed"]  # sealed: signer not loaded (after a (re)start, before unsealing)
+SESSIONS = ["none", "bad", "foreign", "pw", "full", "admin", "autoadmin",      # absent / invalid / live
+            "expired", "expiredpw", "expiredadmin", "expiredforeign"]           # the same credentials after expiry
+DEST_PATHS = ["/idp/oauth2/authorize", "/showAuthToken", "/sendAuthDocument"]  # pages that remember the request URL
+LOGIN_PATH = "/api/v0/login"
+
+
+def sreq(daemon, method, path, query, body, accept, session):
+    return op("sreq", daemon, method, path, query, body, accept, session)
+
+
+def lifecycle_corpus():
+    """every daemon state x every session state, on the pages that carry request text: raw query
+    bytes in the request target, and a POSTed login destination"""
+    q = 'a="><%s>' % CAN  # no space: net/http refuses a request target that contains one
+    ops = []
+    for d in DAEMON_STATES:
+        for s in SESSIONS:
+            for path in DEST_PATHS[:2] + ["/", "/profile/", "/public/loginForm", LOGIN_PATH]:
+                ops.append(sreq(d, "GET", path, q, "", "text/html", s))
+            ops.append(sreq(d, "POST", LOGIN_PATH, "", form([("username", "username"), ("password", "wrong"),
+                                                             ("login_destination", "/x?" + q)]), "text/html", s))
+            ops.append(sreq(d, "POST", DEST_PATHS[1], 'b="/%sattr="1' % CAN, form([("login_destination", "/x?" + q)]), ACCEPTS[1], s))
+    return ops
+
+
+def gen_lifecycle(rng, n, routes, params):
+    ops = []
+    for _ in range(n):
+        p = rand_payload(rng)[-300:]
+        d = rng.choice(DAEMON_STATES)
+        s = rng.choice(SESSIONS)
+        path = rng.choice(DEST_PATHS * 4 + [LOGIN_PATH, "/", "/profile/", "/public/loginForm", "/public/x509ca"] + (routes or []))
+        accept = rng.choice(ACCEPTS[:2] * 3 + ACCEPTS)
+        method = rng.choice(["GET", "GET", "GET", "POST"])
+        query = ""
+        if rng.random() < (0.9 if method != "POST" else 0.4):
+            query = as_query(rng, p) if rng.random() < 0.8 else form([(k, p) for k in (params or []) if rng.random() < 0.3])
+        body = ""
+        if method == "POST":
+            pairs = [("login_destination", as_dest(rng, rand_payload(rng)[-300:]))]
+            if rng.random() < 0.7:
+                pairs += [("username", rng.choice(["username", p[-60:]])), ("password", rng.choice(["wrong", "password"]))]
+            pairs += [(k, p) for k in (params or []) if k not in ("login_destination", "username", "password") and rng.random() < 0.15]
+            body = form(pairs)
+        ops.append(sreq(d, method, path.replace(" ", ""), query, body, accept, s))
+    return ops
+
+
 def corpus():
     """fixed ops, run first on every tier: the known failing input through every page that carries
     the field, then one op of every kind"""
@@ -348,8 +400,10 @@ def run(ctx):
     params = facts.get("c18_form_params", [])
     n_echo = 160 if ctx.quick() else 3000
     n_r3 = 90 if ctx.quick() else 1500
-    ops = corpus() + echo_corpus() + oidc_corpus() + u2f_corpus() + gen_ops(ctx.rng, n_pages, n_pure) + \
-        gen_echo(ctx.rng, n_echo, routes, params) + gen_round3(ctx.rng, n_r3, facts.get("c18_form_param_values"))
+    n_r5 = 400 if ctx.quick() else 6000
+    ops = corpus() + echo_corpus() + oidc_corpus() + u2f_corpus() + lifecycle_corpus() + gen_ops(ctx.rng, n_pages, n_pure) + \
+        gen_echo(ctx.rng, n_echo, routes, params) + gen_round3(ctx.rng, n_r3, facts.get("c18_form_param_values")) + \
+        gen_lifecycle(ctx.rng, n_r5, routes, params)
     if ctx.replay:
         rp = json.load(open(ctx.replay))
         ops = [v["replay"]["op"] for v in rp.get("violations", []) if "op" in v.get("replay", {})] or corpus()
@@ -378,6 +432,7 @@ def run(ctx):
     hist_kind, hist_status, refl_kind = {}, {}, {}
     n_resp = n_html = n_inputs = n_plain_echo = 0
     hist_ctype = {}
+    lifecycle = {}  # "<daemon state>/<session state>" -> {status (h = HTML page): count}
     nontrivial = set()
     build_ops, build_impl, tok_ops, tok_impl = [], [], [], []
     seen_build, seen_tok = set(), set()
@@ -397,8 +452,13 @@ def run(ctx):
         args = [c.unhexs(h) for h in o.split()[1:]]
         for ri, r in enumerate(resps):
             n_resp += 1
+            if k == "sreq":
+                cell = args[0] + "/" + args[6]
+                tag = ("E:" + r["err"][:12]) if r["err"] else "%d%s" % (r["status"], "h" if r["html"] else "")
+                lifecycle.setdefault(cell, {})
+                lifecycle[cell][tag] = lifecycle[cell].get(tag, 0) + 1
             if r["err"]:
-                if r["err"] == "closed" and k != "req":
+                if r["err"] == "closed" and k not in ("req", "sreq"):
                     c.add_violation(ctx, "panic op=%s" % k, "handler dropped the connection (panic) for op %s %r" % (k, [short(a) for a in args]),
                                     {"op": o, "response": ri})
                 hist_status["E:" + r["err"][:20]] = hist_status.get("E:" + r["err"][:20], 0) + 1
@@ -482,6 +542,7 @@ def run(ctx):
         "distinct_nontrivial": len(nontrivial),
         "rule": "ops = fixed corpus (known failing destination first) + payload grammar placed in every request-controlled field of every offline-reachable HTML route; "
                 "non-trivial = distinct page ops whose HTML response reflected the payload (canary text found in text/attribute values) or carried the raw destination field",
+        "lifecycle_matrix": lifecycle,
         "op_kinds": hist_kind, "status_histogram": hist_status, "reflected_by_kind": refl_kind,
         "escaper_at_input_sites": classes, "raw_html_sites": sites,
         "safe_fields": facts.get("c18_safe_fields"), "exec_sites": len(facts.get("c18_exec_sites", [])),
